@@ -335,7 +335,7 @@ fn build(c: &Cmd, env0: &Env, aborts: &Aborts) -> C {
 }
 
 // ---------------------------------------------------------------- generator
-struct Gen { rng: Rng, next_tag: u64, next_name: u64, names: Vec<u64>, ev_tags: Vec<u64>, legacy: bool, scope: Vec<u64>, mix: bool }
+struct Gen { rng: Rng, next_tag: u64, next_name: u64, names: Vec<u64>, ev_tags: Vec<u64>, legacy: bool, scope: Vec<u64>, mix: bool, huge: bool }
 impl Gen {
     fn expr(&mut self, nvars: usize) -> Expr {
         match self.rng.below(6) {
@@ -438,7 +438,8 @@ impl Gen {
     /// request and a second burst; optionally wrapped, so that the burst crosses hosting layers
     fn burst_cmd(&mut self, nvars: usize) -> Cmd {
         // now and then a burst larger than any plausible internal buffer (1024): nothing may be parked or lost on the way up
-        let n1 = if self.rng.coin(1, 4) { 1030 + self.rng.below(60) } else { 33 + self.rng.below(48) };
+        // (only among the first 4000 cases of a run: each costs the evaluator tens of seconds and gigabytes)
+        let n1 = if self.rng.coin(1, 4) && self.huge { 1030 + self.rng.below(60) } else { 33 + self.rng.below(48) };
         let n2 = if self.rng.coin(1, 3) { 33 + self.rng.below(20) } else { 0 };
         let evt = 100 + self.rng.below(6);
         let mut t = Task::Ret;
@@ -1213,7 +1214,7 @@ fn main() {
     }
     for idx in 0..count {
         // one independent generator state per case so that a single case can be regenerated
-        let mut g = Gen { rng: Rng::new(seed.wrapping_mul(1_000_003).wrapping_add(idx as u64)), next_tag: 0, next_name: 0, names: vec![], ev_tags: vec![], legacy: false, scope: vec![], mix: false };
+        let mut g = Gen { rng: Rng::new(seed.wrapping_mul(1_000_003).wrapping_add(idx as u64)), next_tag: 0, next_name: 0, names: vec![], ev_tags: vec![], legacy: false, scope: vec![], mix: false, huge: idx < 4000 };
         let core_host = idx % 3 == 2 || mode == "core";      // mode core: every case runs under a real Core
         let legacy_host = idx % 6 == 5;
         let depth = match g.rng.below(10) { 0..=2 => 0, 3..=5 => 1, 6..=7 => 2, 8 => 3, _ => 4 };
